@@ -200,7 +200,9 @@ func genIdgen(t *rapid.T) idgenCase {
 	case 1:
 		ago = rapid.Int64Range(0, 60*365*24*3600*1000).Draw(t, "ago")
 	default:
-		ago = rapid.SampledFrom([]int64{0, 1, 1 << 31, 1<<32 - 1, 1 << 32, 1 << 40, 60 * 365 * 24 * 3600 * 1000}).Draw(t, "ago")
+		// 2^41 ms (69.7 years) is where the 41-bit time field is full: just below it everything must still hold,
+		// beyond it the time field wraps (nothing is claimed about it) but the id must stay non-negative
+		ago = rapid.SampledFrom([]int64{0, 1, 1 << 31, 1<<32 - 1, 1 << 32, 1 << 40, 60 * 365 * 24 * 3600 * 1000, 1<<41 - 100000, 1<<41 + 5, 1 << 42, 3 << 41, 1<<43 - 7, 9000000000000}).Draw(t, "ago")
 	}
 	return idgenCase{RandBit: rapid.IntRange(-3, 40).Draw(t, "randBit"), AgoMs: ago, N: rapid.IntRange(1, 4).Draw(t, "n"), FailRand: rapid.IntRange(0, 3).Draw(t, "failRand") == 0}
 }
@@ -228,6 +230,10 @@ func runIdgen(c idgenCase, r *pb.Rec) error {
 		after := time.Since(start).Milliseconds()
 		if id < 0 {
 			return fmt.Errorf("negative id %d", id)
+		}
+		if after >= 1<<41 {
+			r.Class("elapsed beyond the 41-bit time field: non-negativity only")
+			continue
 		}
 		ts := int64(id) >> uint(eff)
 		if ts < before || ts > after {
@@ -462,7 +468,7 @@ func init() {
 		}
 		return runParse(c, &pb.Rec{})
 	})
-	pb.Register("idgen", pb.Options{Base: 150, Required: []string{"randBit<=1", "randBit>22", "entropy source fails (fallback path)"}, Rule: "randBit -3..40, start time up to 60 years ago, 1-4 ids with clock-bracketed >=1ms gaps; non-trivial = non-default randBit and non-zero elapsed time"}, genIdgen, runIdgen)
+	pb.Register("idgen", pb.Options{Base: 150, Required: []string{"randBit<=1", "randBit>22", "entropy source fails (fallback path)", "elapsed beyond the 41-bit time field: non-negativity only"}, Rule: "randBit -3..40, start time up to 60 years ago and at 2^41 ms -100 s (all clauses) / beyond 2^41 ms up to 285 years (non-negativity only), 1-4 ids with clock-bracketed >=1ms gaps; non-trivial = non-default randBit and non-zero elapsed time"}, genIdgen, runIdgen)
 	pb.Register("strgen", pb.Options{Base: 8000, Required: []string{"charset size not a power of two", "multi-byte charset", "n=0"}, Rule: "duplicate-free charsets of sizes around powers of two (1..70 runes, ASCII or mixed width), n 0..200, PRNG source optionally preceded by adversarial words; non-trivial = n>0 and charset size not a power of two"}, genStrgen, runStrgen)
 	pb.Register("package_defaults", pb.Options{Base: 3000, Required: []string{"default charset replaced"}, Rule: "randz.String(n) with the default and replaced default charsets (SetStrGeneratorCharSet), randz.Id() bracketed by clock reads against the default start time, Base32 round trip of generated ids; non-trivial = n > 0"}, genDef, runDef)
 	pb.Register("countgen", pb.Options{Base: 8000, Required: []string{"elapsed on a rule boundary"}, Rule: "1-5 rules with positive parameters, elapsed times on every rule boundary ±2 and drawn in between; non-trivial = >= 2 rules and a boundary probed"}, genCount, runCount)
